@@ -5,8 +5,16 @@ import vlib
 
 ASSUME = ['sizes are multiples of 4 KiB; the specification works in pages and leaves the control law\'s multiplicative factor free (only its direction and the max_probe / max_backoff caps are fixed)',
           'matched cgroups are top-level, so effective swap free / max / utilisation are computed by the driver with the C15 formulas',
-          'control-file writes may fail (EAGAIN) by scenario: the cgroup is then dropped from tracking; memory_high_timeout_ms (threaded write) is not exercised']
-WIT = ['Probed', 'BackedOff', 'FloorAboveCeiling', 'Reclaimed', 'PokedAndReset', 'SwappinessLowered', 'RecreatedIsTrackedAfresh']
+          'control-file writes may fail (EAGAIN) by scenario: the cgroup is then dropped from tracking; memory_high_timeout_ms (threaded write) is not exercised',
+          'a matched cgroup may be removed in the middle of a tick, right before the k-th open of one of its files (Vanish)']
+WIT = ['VanishedBeforeItsWrite', 'Probed', 'BackedOff', 'FloorAboveCeiling', 'Reclaimed', 'PokedAndReset', 'SwappinessLowered', 'RecreatedIsTrackedAfresh']
+
+
+def _cov(lines, replay):
+    n = sum(1 for l in lines if l.startswith('{"e":"Vanish"'))
+    if not replay and n == 0:
+        raise vlib.Infra('vacuity guard: no matched cgroup vanished in the middle of a tick in this run')
+    return {'cgroups_vanished_mid_tick': n}
 
 
 def run(pid, tier, tmp, replay):
@@ -14,4 +22,4 @@ def run(pid, tier, tmp, replay):
     vlib.trace_family_check(pid, tier, tmp, replay, variant='plain', driver='senpai_driver', driver_args=[vlib.seed(), n],
                             trace_module='Senpai_Trace.tla', trace_cfg='Senpai_Trace.cfg',
                             mc_module='MC_Senpai.tla', mc_cfg='MC_C18_%s.cfg' % tier, assume=ASSUME,
-                            sample_re=r'\{"e":"(CtlWrite|Swp|CtlWriteFailed)"', wit=('MC_wit_senpai.cfg', WIT))
+                            sample_re=r'\{"e":"(CtlWrite|Swp|CtlWriteFailed)"', wit=('MC_wit_senpai.cfg', WIT), extra_cov=lambda lines: _cov(lines, replay))
